@@ -6,7 +6,49 @@ file" — `old` is `none` when there was no target before the call.  Note that t
 two complete contents: when the new exposition happens to be empty, or equal to a prefix of itself, the empty / short
 file IS the complete new exposition.
 -/
+import PromVerif.Generated.Textfile
+
 namespace PromVerif.Spec.Textfile
+open PromVerif.Generated.Textfile
+
+/-! ### what the property demands of the function's effect skeleton
+
+"write the whole exposition to a private temporary file, then rename over the target; on any exception remove the
+temporary file and re-raise" -/
+
+/-- the `try` body: open the TEMPORARY path for (truncating, binary) writing, produce the exposition, write it through
+that handle, close it — in this order, nothing else — and, as the LAST effect, rename temporary → target.  Hence no
+effect before the rename names the target, and nothing after the rename can fail and leave the target half-done. -/
+def bodyOk (b : List Sk) : Bool :=
+  b.dropLast == [.openWith .tmp ['w', 'b'], .generate, .writeData, .endWith] &&
+  b.getLast? == some (.rename .tmp .target)
+
+/-- no effect before the final rename names the target (implied by `bodyOk`; stated on its own because it is the
+condition the measured mutation "also write the exposition straight to the target" breaks) -/
+def namesTarget : Sk → Bool
+  | .openWith p _ => p != .tmp
+  | .rename s d => s != .tmp || d != .tmp
+  | .removeIfExists t q => t != .tmp || q != .tmp
+  | .remove p => p != .tmp
+  | _ => false
+
+def noTargetBeforeRename (b : List Sk) : Bool := b.dropLast.all (fun s => !namesTarget s)
+
+/-- the handler catches every `Exception`, removes exactly the temporary file when it exists, and re-raises -/
+def handlerOk (caught : List Char) (h : List Sk) : Bool :=
+  caught == "Exception".toList && h == [.removeIfExists .tmp .tmp, .reraise]
+
+/-- the temporary name is the target followed by a non-empty suffix that contains the pid and the thread ident, and
+nothing the model does not know -/
+def tmpPartsOk (parts : List TmpPart) : Bool :=
+  (match parts with
+   | .path :: .lit s :: _ => !s.isEmpty
+   | _ => false) &&
+  parts.contains .pid && parts.contains .threadIdent &&
+  parts.all (fun p => match p with | .other _ => false | _ => true)
+
+def wellformed : Bool :=
+  bodyOk tryBody && noTargetBeforeRename tryBody && handlerOk caughtClass handler && tmpPartsOk tmpPathParts
 
 /-- what a reader of the target may see at any instant of one call -/
 def OldOrNew {α : Type} (old : Option α) (new : α) (seen : Option α) : Prop :=
